@@ -42,7 +42,8 @@ def materialize(spec, defects, tag=''):
             if m[0] == 'in':
                 ann[pn] = Input(classes[m[1]])
             elif m[0] == 'sw':
-                ann[pn] = SwitchCase(switch=classes[m[1]], cases=[(l, classes[c]) for l, c in m[2]], name='s%d_%d%s' % (i, j, tag))
+                ann[pn] = SwitchCase(switch=classes[m[1]], cases=[(l, classes[c]) for l, c in m[2]],
+                                     name=None if spec.get('unnamed_switch') else 's%d_%d%s' % (i, j, tag))
             elif m[0] == 'oneof':
                 ann[pn] = InputOneOf([classes[c] for c in m[1]])
             else:
@@ -143,7 +144,20 @@ def declared(spec):
     return dict(nodes=N, edges=E, node_map=sorted(V | {0}), deliveries=deliveries)
 
 
-def real_graph(dag, to_key):
+def real_graph(dag, to_key, spec=None):
+    to_key = dict(to_key)
+    if spec is not None and spec.get('unnamed_switch'):
+        # unnamed switches get a generated id: recognise each by the parameter it delivers to
+        pidx = {(i, pn): j for i, nd in enumerate(spec['nodes']) for j, (pn, mk) in enumerate(nd['params'])}
+        for n, d in dag.graph.nodes(data=True):
+            if n not in to_key and any(getattr(k, 'value', k) == 'is_switch' for k in d):
+                outs = [(v, dd) for _, v, dd in dag.graph.out_edges(n, data=True)]
+                if len(outs) == 1 and outs[0][0] in to_key:
+                    i = to_key[outs[0][0]][1]
+                    pn = {getattr(k, 'value', k): x for k, x in outs[0][1].items()}.get('kwarg_name')
+                    if (i, pn) in pidx:
+                        to_key[n] = ['sw', i, pidx[(i, pn)]]
+
     def key(nid):
         return to_key.get(nid, ['?', str(nid)])
     N, E = {}, {}
@@ -201,6 +215,23 @@ def gen_decl(rng):
         srcs = [m[1] for _, m in nodes[i]['params'] if m[0] == 'in']
         if srcs:
             nodes[i]['params'].append(['pdup', ['in', rng.choice(srcs)]])
+    # extra recurrent marks (only built, never run here): several destinations, often sharing one start node
+    for _ in range(rng.choice([0, 0, 1, 2])):
+        cands = [(i, j) for i in range(2, len(nodes)) for j, (pn, mk) in enumerate(nodes[i]['params']) if mk[0] == 'in' and mk[1] != 0]
+        if not cands:
+            break
+        i, j = rng.choice(cands)
+        d = nodes[i]['params'][j][1][1]
+        anc = sorted(ps.closure(nodes, d) - {d})
+        starts = [mk[1] for nd in nodes for _, mk in nd['params'] if mk[0] == 'rec']
+        if not anc:
+            continue
+        shared = [x for x in starts if x in anc]
+        s0 = rng.choice(shared) if shared and rng.random() < 0.6 else rng.choice(anc)
+        if any(mk[0] == 'rec' and mk[2] == d for nd in nodes for _, mk in nd['params']):
+            continue
+        nodes[i]['params'][j][1] = ['rec', s0, d, rng.choice([1, 2, 3])]
+    spec['unnamed_switch'] = rng.random() < 0.3
     ps.spec_defaults(spec)
     return prof, spec
 
@@ -247,7 +278,7 @@ def main():
                 continue
             st['evaluations'] += 1
             to_key = ps.node_id_maps(spec, classes, tag)
-            rg = real_graph(dag, to_key)
+            rg = real_graph(dag, to_key, spec)
             res = model.build(spec)
             mg = model_graph(res)
             st['k2_compared'] += 1
